@@ -71,7 +71,10 @@ PageCount(size) ==
 \* the seam accepts K calls and fails on call K+1: calls made, and whether the seam failed
 SeamFails(n, K) == W!Lt(W!FromNat(K), n)
 Calls(n, K) == IF SeamFails(n, K) THEN K + 1 ELSE W!ToNat(n)
-Pairs(p0, f0, n) == [i \in 1..n |-> <<P!Nth(p0, i), IF Bug = "SameFrame" THEN f0 ELSE P!Nth(f0, i)>>]
+PairsUp(p0, f0, calls) == [i \in 1..calls |-> <<P!Nth(p0, i), IF Bug = "SameFrame" THEN f0 ELSE P!Nth(f0, i)>>]
+\* design VARIANT (not a bug): map the region top-down, last page first - the monitor must accept it as well
+PairsDown(p0, f0, calls, n) == [i \in 1..calls |-> <<W!Sub(W!Add(p0, n), W!FromNat(i)), W!Sub(W!Add(f0, n), W!FromNat(i))>>]
+PairsOf(p0, f0, calls, n) == IF Bug = "VariantTopDown" THEN PairsDown(p0, f0, calls, n) ELSE PairsUp(p0, f0, calls)
 
 Step(e, c2, newhist, op) ==
   LET m == P!Mon(s, e) IN
@@ -93,7 +96,7 @@ MapRegion(f, size, K) ==
       e  == [k |-> "mapregion", f |-> f, size |-> size, budget |-> K,
              res |-> IF ~r.ok THEN "err" ELSE IF sf THEN "seamerr" ELSE "ok",
              page |-> IF r.ok /\ ~sf THEN pg ELSE W!Zero, cur |-> r.cur,
-             pairs |-> IF r.ok THEN Pairs(pg, f, Calls(n, K)) ELSE <<>>, seamfail |-> sf]
+             pairs |-> IF r.ok THEN PairsOf(pg, f, Calls(n, K), n) ELSE <<>>, seamfail |-> sf]
   IN Step(e, r.cur, IF r.ok THEN Append(hist, [a |-> r.addr, size |-> size]) ELSE hist,
           [op |-> "mapregion", size |-> size, f |-> f, budget |-> K])
 
@@ -104,7 +107,7 @@ Identity(f, size, K) ==
       e  == [k |-> "identity", f |-> f, size |-> size, budget |-> K,
              res |-> IF fail0 THEN "err" ELSE IF sf THEN "seamerr" ELSE "ok",
              page |-> IF fail0 \/ sf THEN W!Zero ELSE f, cur |-> cursor,
-             pairs |-> IF fail0 THEN <<>> ELSE Pairs(f, f, Calls(n, K)), seamfail |-> sf]
+             pairs |-> IF fail0 THEN <<>> ELSE PairsOf(f, f, Calls(n, K), n), seamfail |-> sf]
   IN Step(e, cursor, hist, [op |-> "identity", size |-> size, f |-> f, budget |-> K])
 
 Next == /\ mismatch = <<>> /\ nops < MaxOps
